@@ -614,10 +614,20 @@ def check(run):
         'split_inline_box / _break_waiting_children (line breaking across inline boxes) is monitored by full renders, not proved',
         'line_box_verticality is proved for baseline-aligned children only; other vertical-align values are monitored '
         'through the stacking clause of the render monitor']
-    stream_raw(run, rng, 4000 if thorough else 1000)
-    stream_sfl(run, rng, 15000 if thorough else 2400)
-    stream_align(run, rng, 4000 if thorough else 600)
-    stream_render(run, rng, 6000 if thorough else 700)
+    import time
+    t0 = time.time()
+    stream_raw(run, rng, 4000 if thorough else 600)
+    t1 = time.time()
+    stream_sfl(run, rng, 15000 if thorough else 1800)
+    t2 = time.time()
+    stream_align(run, rng, 4000 if thorough else 400)
+    t3 = time.time()
+    stream_render(run, rng, 6000 if thorough else 500)
+    t4 = time.time()
+    run.stream_info('pango-G', wall_s=round(t1 - t0, 1))
+    run.stream_info('sfl-direct', wall_s=round(t2 - t1, 1))
+    run.stream_info('align-direct', wall_s=round(t3 - t2, 1))
+    run.stream_info('render-lines', wall_s=round(t4 - t3, 1))
 
 
 def stream_raw(run, rng, n):
@@ -678,6 +688,9 @@ def classify_sfl(c, o, mask):
             return 'sfl-soft-hyphen-break-without-hyphen'
         if first_unit_em(text, c['hy']) * c['fs'] > max(Fraction(c['mw']), 0):
             return 'sfl-overflowing-word-runs-to-first-soft-hyphen'
+        p0 = text.split('\n')[0]
+        if p0.endswith(' ') and vis_len(p0.rstrip(' ')) * c['fs'] <= Fraction(c['mw']) < vis_len(p0) * c['fs']:
+            return 'sfl-soft-hyphen-trailing-space-counted'
         if ow != 'normal':
             return 'sfl-soft-hyphen-under-overflow-wrap'
     return None
